@@ -2,8 +2,8 @@
 # usage: try_refactor_at.sh <worktree> <refactor.diff> — like try_refactor.sh but against a scratch worktree (LRS_REPO), for parallel runs
 WT=$1; P=$2
 cd $WT && git checkout -q -- . && git apply $P || { echo "does not apply: $P"; exit 2; }
-IDS="C01 C02 C03 C05 C06 C07 C08 C09 C10 C11 C12 C13 C14 C15 C16 C17 C18 C19 C20"
-if grep -q "lorawan-device/\|lorawan-encoding/\|lora-modulation/" $P; then IDS="$IDS C04"; fi
+IDS=${LRS_IDS:-"C01 C02 C03 C05 C06 C07 C08 C09 C10 C11 C12 C13 C14 C15 C16 C17 C18 C19 C20"}
+if [ -z "$LRS_IDS" ] && grep -q "lorawan-device/\|lorawan-encoding/\|lora-modulation/" $P; then IDS="$IDS C04"; fi
 for id in $IDS; do
   (cd ${VERIF_DIR:-/verif} && LRS_REPO=$WT LRS_TARGET=$WT/lrs-target LRS_EVIDENCE_DIR=$WT/lrs-ev ./check $id 2>&1 | awk '/^  C[0-9]|ERROR|Traceback|Error:/{print substr($0,1,330); n++} END{}' | head -5)
 done
